@@ -412,6 +412,21 @@ class VerusUnit:
         self._classify(res, w, rc, out, err, logdir)
         for which, (crc, cout, cerr, cwall) in can_out.items():
             cmd, cmap, names, _key = can[which]
+            bad, tool = self._canary_bad(cmd, cmap, names, cerr)
+            if bad and not tool:
+                # a canary that seems to verify is re-run once, uncached: only functions that show no failure in both runs count
+                # (guards against a transient solver / scheduling effect being reported as vacuity)
+                crc2, cout2, cerr2, _w2 = _run(cmd, self.outdir, timeout)
+                bad2, tool2 = self._canary_bad(cmd, cmap, names, cerr2)
+                bad = [n for n in bad if n in bad2]
+                tool = tool2
+                _canary_cache_put(self.outdir, _key, cerr2)
+            res.canaries[which] = dict(count=len(names), failed_as_expected=len(names) - len(bad), not_failing=bad, tool_errors=tool[:3])
+        res.wall_s = time.time() - t0
+        return res
+
+    def _canary_bad(self, cmd, cmap, names, cerr):
+        if True:
             hit = set()
             try:
                 _t, cfns = fn_spans(open(os.path.join(self.outdir, cmd[1])).read())
@@ -441,9 +456,7 @@ class VerusUnit:
             bad = [n for n in names if n not in hit]
             if tool:
                 bad = []   # the canary file did not get as far as verification: reported as a tool error, not as vacuity
-            res.canaries[which] = dict(count=len(names), failed_as_expected=len(names) - len(bad), not_failing=bad, tool_errors=tool[:3])
-        res.wall_s = time.time() - t0
-        return res
+            return bad, tool
 
     def _classify(self, res, w, rc, out, err, logdir):
         # timing / per-function results
